@@ -853,6 +853,21 @@ class ListClient(BlockClient):
             if a is None or b is None:
                 return None
             return a | b
+        if isinstance(node, ast.IfExp):
+            # `[X] if flag else []`: the branch the tracked flag selects, else what both branches contain
+            a, b = self.tags_of(node.body, st), self.tags_of(node.orelse, st)
+            if a is None or b is None:
+                return None
+            d = A.dotted(node.test)
+            if d in getattr(self, "attr_vars", {}):
+                t, fz = F.Flow.truth_vals(st.get(self.attr_vars[d]))
+                if t and not fz:
+                    return a
+                if fz and not t:
+                    return b
+            return a & b
+        if isinstance(node, ast.Call) and A.dotted(node.func) in ("list", "tuple") and len(node.args) == 1:
+            return self.tags_of(node.args[0], st)
         return None
 
     def tag(self, e):
